@@ -1620,6 +1620,7 @@ def closure_return_in_caller_terms(facts, clo, arg_exprs):
     if cb is None or len(cb.blocks) > 400:
         return None
     caps = dict(clo[2]) if len(clo) > 2 else {}
+    caps.update({k[len("_ref__"):]: v for k, v in list(caps.items()) if isinstance(k, str) and k.startswith("_ref__")})
     ret = canon(Prov(cb, facts).local(0))
 
     def fn(x):
@@ -1689,6 +1690,7 @@ def closures_of(facts, body, depth=0):
                     continue
                 seen.add(path)
                 caps = dict(zip(st.rv.j.get("fields") or [], [p.operand(o) for o in st.rv.ops]))
+                caps.update({k[len("_ref__"):]: v for k, v in list(caps.items()) if k.startswith("_ref__")})     # by-reference captures
 
                 def to_caller(e, caps=caps):
                     return subst_expr(e, lambda x: caps.get(x[1]) if isinstance(x, tuple) and x and x[0] == "upvar" and len(x) > 1 and x[1] in caps else None)
